@@ -1,4 +1,465 @@
-//! Extension-field towers (filled in below).
-use mzkh::Ctx;
-pub fn probe_sum_ref_child() {}
-pub fn run(_ctx: &mut Ctx) {}
+//! Extension-field towers (BLS12-381 Fp2/Fp6/Fp12, BN254 Fq2/Fq6/Fq12): coefficient vectors in,
+//! coefficient vectors out, against the Lean tower model (`tw <Tower><deg> <op> …`).
+
+use ff::{Field, PrimeField};
+use midnight_curves::bls12_381::{Fp12, Fp2, Fp6};
+use midnight_curves::bn256::{Fq12, Fq2, Fq6};
+use midnight_curves::ff_ext::{
+    cubic::CubicSparseMul, quadratic::QuadSparseMul, ExtField, Legendre,
+};
+use mzkh::{catch, Ctx};
+use num_bigint::BigUint;
+use num_traits::{One, Zero};
+use rand_core::RngCore;
+use serde_json::json;
+
+use crate::pf::{canon, fe, modulus, BlsFp, Bn256Fq};
+
+/// An extension field given by its coefficient vector over the prime field.
+pub trait TW: Field {
+    const NAME: &'static str;
+    const DEG: usize;
+    fn p() -> BigUint;
+    fn of(c: &[BigUint]) -> Self;
+    fn to(&self) -> Vec<BigUint>;
+    fn frob(&self, k: usize) -> Self;
+}
+
+fn hexes(s: &str) -> Vec<BigUint> {
+    // coefficients printed by the derived Debug impls, in order
+    let mut out = vec![];
+    let b = s.as_bytes();
+    let mut i = 0;
+    while i + 1 < b.len() {
+        if b[i] == b'0' && b[i + 1] == b'x' {
+            let mut j = i + 2;
+            while j < b.len() && (b[j] as char).is_ascii_hexdigit() {
+                j += 1;
+            }
+            out.push(BigUint::parse_bytes(&b[i + 2..j], 16).unwrap());
+            i = j;
+        } else {
+            i += 1;
+        }
+    }
+    out
+}
+
+impl TW for Fp2 {
+    const NAME: &'static str = "Bls2";
+    const DEG: usize = 2;
+    fn p() -> BigUint {
+        modulus::<BlsFp>()
+    }
+    fn of(c: &[BigUint]) -> Self {
+        Fp2::new(fe::<BlsFp>(&c[0]), fe::<BlsFp>(&c[1]))
+    }
+    fn to(&self) -> Vec<BigUint> {
+        vec![canon(&self.c0()), canon(&self.c1())]
+    }
+    fn frob(&self, k: usize) -> Self {
+        let mut x = *self;
+        x.frobenius_map(k);
+        x
+    }
+}
+impl TW for Fp6 {
+    const NAME: &'static str = "Bls6";
+    const DEG: usize = 6;
+    fn p() -> BigUint {
+        modulus::<BlsFp>()
+    }
+    fn of(c: &[BigUint]) -> Self {
+        Fp6::new(Fp2::of(&c[0..2]), Fp2::of(&c[2..4]), Fp2::of(&c[4..6]))
+    }
+    fn to(&self) -> Vec<BigUint> {
+        [self.c0().to(), self.c1().to(), self.c2().to()].concat()
+    }
+    fn frob(&self, k: usize) -> Self {
+        let mut x = *self;
+        x.frobenius_map(k);
+        x
+    }
+}
+impl TW for Fp12 {
+    const NAME: &'static str = "Bls12";
+    const DEG: usize = 12;
+    fn p() -> BigUint {
+        modulus::<BlsFp>()
+    }
+    fn of(c: &[BigUint]) -> Self {
+        Fp12::new(Fp6::of(&c[0..6]), Fp6::of(&c[6..12]))
+    }
+    fn to(&self) -> Vec<BigUint> {
+        [self.c0().to(), self.c1().to()].concat()
+    }
+    fn frob(&self, k: usize) -> Self {
+        let mut x = *self;
+        x.frobenius_map(k);
+        x
+    }
+}
+impl TW for Fq2 {
+    const NAME: &'static str = "Bn2562";
+    const DEG: usize = 2;
+    fn p() -> BigUint {
+        modulus::<Bn256Fq>()
+    }
+    fn of(c: &[BigUint]) -> Self {
+        Fq2::new(fe::<Bn256Fq>(&c[0]), fe::<Bn256Fq>(&c[1]))
+    }
+    fn to(&self) -> Vec<BigUint> {
+        hexes(&format!("{self:?}"))
+    }
+    fn frob(&self, k: usize) -> Self {
+        let mut x = *self;
+        ExtField::frobenius_map(&mut x, k);
+        x
+    }
+}
+impl TW for Fq6 {
+    const NAME: &'static str = "Bn2566";
+    const DEG: usize = 6;
+    fn p() -> BigUint {
+        modulus::<Bn256Fq>()
+    }
+    fn of(c: &[BigUint]) -> Self {
+        Fq6::new(Fq2::of(&c[0..2]), Fq2::of(&c[2..4]), Fq2::of(&c[4..6]))
+    }
+    fn to(&self) -> Vec<BigUint> {
+        hexes(&format!("{self:?}"))
+    }
+    fn frob(&self, k: usize) -> Self {
+        let mut x = *self;
+        ExtField::frobenius_map(&mut x, k);
+        x
+    }
+}
+impl TW for Fq12 {
+    const NAME: &'static str = "Bn25612";
+    const DEG: usize = 12;
+    fn p() -> BigUint {
+        modulus::<Bn256Fq>()
+    }
+    fn of(c: &[BigUint]) -> Self {
+        Fq12::new(Fq6::of(&c[0..6]), Fq6::of(&c[6..12]))
+    }
+    fn to(&self) -> Vec<BigUint> {
+        hexes(&format!("{self:?}"))
+    }
+    fn frob(&self, k: usize) -> Self {
+        let mut x = *self;
+        ExtField::frobenius_map(&mut x, k);
+        x
+    }
+}
+
+fn cs(v: &[BigUint]) -> String {
+    v.iter().map(|x| format!("0x{}", x.to_str_radix(16))).collect::<Vec<_>>().join(",")
+}
+
+fn elems<T: TW>(ctx: &Ctx, nrandom: usize) -> Vec<(&'static str, Vec<BigUint>)> {
+    let p = T::p();
+    let d = T::DEG;
+    let z = BigUint::zero();
+    let o = BigUint::one();
+    let m1 = &p - 1u32;
+    let half = (&p - 1u32) / 2u32;
+    let r = (BigUint::one() << (64 * ((p.bits() as usize + 63) / 64))) % &p;
+    let unit = |i: usize, v: &BigUint| {
+        let mut c = vec![z.clone(); d];
+        c[i] = v.clone();
+        c
+    };
+    let mut v: Vec<(&'static str, Vec<BigUint>)> = vec![
+        ("zero", vec![z.clone(); d]),
+        ("one", unit(0, &o)),
+        ("minus-one", unit(0, &m1)),
+        ("all-minus-one", vec![m1.clone(); d]),
+        ("all-half", vec![half.clone(); d]),
+        ("all-R", vec![r.clone(); d]),
+        ("last-coefficient-only", unit(d - 1, &o)),
+        ("last-coefficient-only", unit(d - 1, &m1)),
+        ("second-coefficient-only", unit(1, &o)),
+    ];
+    if d >= 6 {
+        v.push(("one-per-block", unit(d / 2, &o)));
+        v.push(("one-per-block", unit(4, &half)));
+    }
+    let mut rng = ctx.rng(&format!("tower:{}", T::NAME));
+    for _ in 0..nrandom {
+        let c: Vec<BigUint> = (0..d)
+            .map(|_| {
+                let mut b = vec![0u8; 56];
+                rng.fill_bytes(&mut b);
+                BigUint::from_bytes_le(&b) % &p
+            })
+            .collect();
+        v.push(("random", c.clone()));
+        // sparse random: some coefficients zero
+        let s: Vec<BigUint> = c.iter().enumerate().map(|(i, x)| if (rng.next_u32() >> (i % 7)) & 1 == 1 { x.clone() } else { z.clone() }).collect();
+        v.push(("random-sparse", s));
+    }
+    v
+}
+
+fn run_tw<T: TW>(ctx: &mut Ctx) {
+    let n = T::NAME;
+    let nr = if ctx.quick() { 3 } else { 25 };
+    let cls = elems::<T>(ctx, nr);
+    let els: Vec<T> = cls.iter().map(|(_, c)| T::of(c)).collect();
+    for ((c, v), a) in cls.iter().zip(&els) {
+        ctx.count(&format!("tower-class:{c}"));
+        let nt = c.starts_with("random");
+        let a = *a;
+        let av = cs(v);
+        if a.to() != *v {
+            ctx.oracle_fail(&format!("{n}:coeffs:{av}"), "coefficient accessors do not round-trip", json!({"tower": n, "a": av}));
+        }
+        ctx.case("tw.neg", nt, &format!("tw {n} neg {av}"), &cs(&(-a).to()));
+        ctx.case("tw.square", nt, &format!("tw {n} square {av}"), &cs(&a.square().to()));
+        ctx.case("tw.double", nt, &format!("tw {n} double {av}"), &cs(&a.double().to()));
+        ctx.case("tw.is_zero", nt, &format!("tw {n} is_zero {av}"), &format!("{}", a.is_zero().unwrap_u8()));
+        let is_zero_spec = v.iter().all(|x| x.is_zero());
+        if bool::from(a.is_zero()) != is_zero_spec {
+            // regression of E2 (CubicExtField::is_zero ignored c2)
+            let key = if n == "Bn2566" { "bn256.Fq6:is_zero-ignores-c2".to_string() } else { format!("{n}:is_zero:{av}") };
+            ctx.oracle_fail(&key, "is_zero() differs from 'all coefficients are zero'", json!({"tower": n, "a": av}));
+        }
+        match catch(|| Option::<T>::from(a.invert())) {
+            Err(e) => ctx.oracle_fail(&format!("{n}:invert-panic:{av}"), "invert panicked", json!({"tower": n, "a": av, "panic": e})),
+            Ok(i) => {
+                ctx.case("tw.inv", nt, &format!("tw {n} inv {av}"), &i.map(|x| cs(&x.to())).unwrap_or("none".into()));
+                match i {
+                    Some(i) if i * a != T::ONE || is_zero_spec => ctx.oracle_fail(&format!("{n}:invert:{av}"), "x * invert(x) != 1", json!({"tower": n, "a": av})),
+                    None if !is_zero_spec => ctx.oracle_fail(&format!("{n}:invert:{av}"), "invert(x) is None for x != 0", json!({"tower": n, "a": av})),
+                    _ => {}
+                }
+            }
+        }
+        for k in [0usize, 1, 2, 3, 5, 6, 7, 11, 12, 13] {
+            if !ctx.thorough() && !nt && k > 3 {
+                continue;
+            }
+            ctx.case("tw.frobenius", nt, &format!("tw {n} frobenius {av} | {k}"), &cs(&a.frob(k).to()));
+        }
+        if a.cube() != a * a * a || a.square() != a * a {
+            ctx.oracle_fail(&format!("{n}:square-cube:{av}"), "square/cube differ from repeated multiplication", json!({"tower": n, "a": av}));
+        }
+    }
+    for ((ca, va), a) in cls.iter().zip(&els) {
+        for ((cb, vb), b) in cls.iter().zip(&els) {
+            let (a, b) = (*a, *b);
+            let nt = ca.starts_with("random") || cb.starts_with("random");
+            let (ah, bh) = (cs(va), cs(vb));
+            let (s, d, m) = (a + b, a - b, a * b);
+            ctx.case("tw.add", nt, &format!("tw {n} add {ah} {bh}"), &cs(&s.to()));
+            ctx.case("tw.sub", nt, &format!("tw {n} sub {ah} {bh}"), &cs(&d.to()));
+            ctx.case("tw.mul", nt, &format!("tw {n} mul {ah} {bh}"), &cs(&m.to()));
+            let mut ok = a + &b == s && a - &b == d && a * &b == m && b * a == m;
+            let mut t = a;
+            t += b;
+            ok &= t == s;
+            let mut t = a;
+            t += &b;
+            ok &= t == s;
+            let mut t = a;
+            t -= b;
+            ok &= t == d;
+            let mut t = a;
+            t -= &b;
+            ok &= t == d;
+            let mut t = a;
+            t *= b;
+            ok &= t == m;
+            let mut t = a;
+            t *= &b;
+            ok &= t == m;
+            ok &= (a == b) == (va == vb) && bool::from(a.ct_eq(&b)) == (va == vb);
+            ok &= T::conditional_select(&a, &b, 0.into()) == a && T::conditional_select(&a, &b, 1.into()) == b;
+            if !ok {
+                ctx.oracle_fail(&format!("{n}:variants:{ah}:{bh}"), "operator variants (by ref / in place / ct_eq / select / commutativity) disagree", json!({"tower": n, "a": ah, "b": bh}));
+            }
+        }
+    }
+    // batched
+    let xs: Vec<T> = els.iter().copied().take(7).collect();
+    let s: T = xs.iter().copied().sum();
+    let pr: T = xs.iter().copied().product();
+    let s2 = xs.iter().fold(T::ZERO, |a, x| a + x);
+    let p2 = xs.iter().fold(T::ONE, |a, x| a * x);
+    if s != s2 || pr != p2 {
+        ctx.oracle_fail(&format!("{n}:sum-product"), "Sum/Product differ from the fold", json!({"tower": n}));
+    }
+}
+
+fn run_deg2_extras(ctx: &mut Ctx) {
+    // BLS Fp2
+    for (c, v) in elems::<Fp2>(ctx, if ctx.quick() { 6 } else { 60 }) {
+        let a = Fp2::of(&v);
+        let av = cs(&v);
+        let nt = c.starts_with("random");
+        let mut t = a;
+        t.mul_by_nonresidue();
+        ctx.case("tw.mul_nr", nt, &format!("tw Bls2 mul_nr {av}"), &cs(&t.to()));
+        ctx.case("tw.norm", nt, &format!("tw Bls2 norm {av}"), &format!("0x{}", canon(&a.norm()).to_str_radix(16)));
+        ctx.case("tw.legendre", nt, &format!("tw Bls2 legendre {av}"), &format!("{}", a.legendre()));
+        let r = Option::<Fp2>::from(a.sqrt());
+        ctx.case("tw.is_square", nt, &format!("tw Bls2 is_square {av}"), &format!("{}", r.is_some() as u8));
+        if let Some(r) = r {
+            if r * r != a {
+                ctx.oracle_fail(&format!("Bls2:sqrt:{av}"), "sqrt(x)^2 != x", json!({"a": av}));
+            }
+        }
+        if a.is_quad_res() != r.is_some() {
+            ctx.oracle_fail(&format!("Bls2:is_quad_res:{av}"), "is_quad_res differs from sqrt().is_some()", json!({"a": av}));
+        }
+        if a.mul3() != a + a + a || a.mul8() != a.double().double().double() || a.shl(3) != a.mul8() {
+            ctx.oracle_fail(&format!("Bls2:mul3-8:{av}"), "mul3/mul8/shl differ from repeated addition", json!({"a": av}));
+        }
+    }
+    // BN254 Fq2
+    for (c, v) in elems::<Fq2>(ctx, if ctx.quick() { 6 } else { 60 }) {
+        let a = Fq2::of(&v);
+        let av = cs(&v);
+        let nt = c.starts_with("random");
+        ctx.case("tw.mul_nr", nt, &format!("tw Bn2562 mul_nr {av}"), &cs(&ExtField::mul_by_nonresidue(&a).to()));
+        if ExtField::mul_by_nonresidue(&a) != a * Fq2::NON_RESIDUE {
+            ctx.oracle_fail(&format!("Bn2562:mul_nr:{av}"), "mul_by_nonresidue differs from multiplication by NON_RESIDUE", json!({"a": av}));
+        }
+        ctx.case("tw.norm", nt, &format!("tw Bn2562 norm {av}"), &format!("0x{}", canon(&a.norm()).to_str_radix(16)));
+        ctx.case("tw.legendre", nt, &format!("tw Bn2562 legendre {av}"), &format!("{}", a.legendre()));
+        match catch(|| Option::<Fq2>::from(a.sqrt())) {
+            Err(e) => ctx.oracle_fail(&format!("Bn2562:sqrt-panic:{av}"), "sqrt panicked", json!({"a": av, "panic": e})),
+            Ok(r) => {
+                ctx.case("tw.is_square", nt, &format!("tw Bn2562 is_square {av}"), &format!("{}", r.is_some() as u8));
+                if let Some(r) = r {
+                    if r * r != a {
+                        ctx.oracle_fail(&format!("Bn2562:sqrt:{av}"), "sqrt(x)^2 != x", json!({"a": av}));
+                    }
+                }
+            }
+        }
+        // codecs
+        let bytes = a.to_bytes();
+        let rep = a.to_repr();
+        let ok = Option::<Fq2>::from(Fq2::from_bytes(&bytes)) == Some(a)
+            && Option::<Fq2>::from(Fq2::from_repr(rep)) == Some(a)
+            && BigUint::from_bytes_le(&bytes[..32]) == v[0]
+            && BigUint::from_bytes_le(&bytes[32..]) == v[1];
+        if !ok {
+            ctx.oracle_fail(&format!("Bn2562:codecs:{av}"), "to_bytes/from_bytes/to_repr/from_repr do not round-trip", json!({"a": av}));
+        }
+    }
+    // E3 regression: non-canonical halves are rejected without panicking
+    let p = modulus::<Bn256Fq>();
+    for (i, half) in [p.clone(), &p + 1u32, (BigUint::one() << 256usize) - 1u32].iter().enumerate() {
+        for pos in 0..2 {
+            let mut bytes = [0u8; 64];
+            let hb = half.to_bytes_le();
+            bytes[32 * pos..32 * pos + hb.len()].copy_from_slice(&hb);
+            let r1 = catch(|| bool::from(Fq2::from_bytes(&bytes).is_some()));
+            let mut rep = <Fq2 as PrimeField>::Repr::default();
+            rep.as_mut().copy_from_slice(&bytes);
+            let r2 = catch(|| bool::from(Fq2::from_repr(rep).is_some()));
+            if r1 != Ok(false) || r2 != Ok(false) {
+                ctx.oracle_fail(
+                    "bn256.Fq2:decoder-panics-noncanonical",
+                    "bn256 Fq2::from_bytes/from_repr accept or panic on a non-canonical half",
+                    json!({"case": i, "half": pos, "from_bytes": format!("{r1:?}"), "from_repr": format!("{r2:?}")}),
+                );
+            }
+        }
+    }
+    ctx.count("regression:Fq2-noncanonical");
+}
+
+fn run_sparse(ctx: &mut Ctx) {
+    let nr = if ctx.quick() { 4 } else { 40 };
+    let e6 = elems::<Fq6>(ctx, nr);
+    let e2 = elems::<Fq2>(ctx, nr);
+    for (i, (c, v)) in e6.iter().enumerate() {
+        let a = Fq6::of(v);
+        let c0 = &e2[(i * 3 + 1) % e2.len()].1;
+        let c1 = &e2[(i * 5 + 2) % e2.len()].1;
+        let nt = c.starts_with("random");
+        let r1 = <Fq6 as CubicSparseMul>::mul_by_1(&a, &Fq2::of(c1));
+        ctx.case("tw.mul_by_1", nt, &format!("tw Bn2566 mul_by_1 {} | {}", cs(v), cs(c1).replace(',', " ")), &cs(&r1.to()));
+        let r01 = <Fq6 as CubicSparseMul>::mul_by_01(&a, &Fq2::of(c0), &Fq2::of(c1));
+        ctx.case("tw.mul_by_01", nt, &format!("tw Bn2566 mul_by_01 {} | {} {}", cs(v), cs(c0).replace(',', " "), cs(c1).replace(',', " ")), &cs(&r01.to()));
+        let full1 = a * Fq6::new(Fq2::ZERO, Fq2::of(c1), Fq2::ZERO);
+        let full01 = a * Fq6::new(Fq2::of(c0), Fq2::of(c1), Fq2::ZERO);
+        let mut nrr = a;
+        nrr = ExtField::mul_by_nonresidue(&nrr);
+        ctx.case("tw.mul_nr", nt, &format!("tw Bn2566 mul_nr {}", cs(v)), &cs(&nrr.to()));
+        if r1 != full1 || r01 != full01 || nrr != a * Fq6::NON_RESIDUE {
+            ctx.oracle_fail(&format!("Bn2566:sparse:{}", cs(v)), "mul_by_1 / mul_by_01 / mul_by_nonresidue differ from the full product", json!({"a": cs(v)}));
+        }
+    }
+    let e12 = elems::<Fq12>(ctx, nr);
+    for (i, (c, v)) in e12.iter().enumerate() {
+        let a = Fq12::of(v);
+        let x = &e2[(i * 3 + 1) % e2.len()].1;
+        let y = &e2[(i * 5 + 2) % e2.len()].1;
+        let z = &e2[(i * 7 + 3) % e2.len()].1;
+        let nt = c.starts_with("random");
+        let (fx, fy, fz) = (Fq2::of(x), Fq2::of(y), Fq2::of(z));
+        let mut r = a;
+        <Fq12 as QuadSparseMul>::mul_by_014(&mut r, &fx, &fy, &fz);
+        let args = format!("{} {} {}", cs(x).replace(',', " "), cs(y).replace(',', " "), cs(z).replace(',', " "));
+        ctx.case("tw.mul_by_014", nt, &format!("tw Bn25612 mul_by_014 {} | {args}", cs(v)), &cs(&r.to()));
+        let full = a * Fq12::new(Fq6::new(fx, fy, Fq2::ZERO), Fq6::new(Fq2::ZERO, fz, Fq2::ZERO));
+        let mut r2 = a;
+        <Fq12 as QuadSparseMul>::mul_by_034(&mut r2, &fx, &fy, &fz);
+        ctx.case("tw.mul_by_034", nt, &format!("tw Bn25612 mul_by_034 {} | {args}", cs(v)), &cs(&r2.to()));
+        let full2 = a * Fq12::new(Fq6::new(fx, Fq2::ZERO, Fq2::ZERO), Fq6::new(fy, fz, Fq2::ZERO));
+        let mut cj = a;
+        cj.conjugate();
+        ctx.case("tw.conjugate", nt, &format!("tw Bn25612 conjugate {}", cs(v)), &cs(&cj.to()));
+        if r != full || r2 != full2 {
+            ctx.oracle_fail(&format!("Bn25612:sparse:{}", cs(v)), "mul_by_014 / mul_by_034 differ from the full product", json!({"a": cs(v)}));
+        }
+    }
+    // BLS Fp6 / Fp12 extras
+    for (c, v) in elems::<Fp6>(ctx, nr) {
+        let a = Fp6::of(&v);
+        let mut t = a;
+        t.mul_by_nonresidue();
+        ctx.case("tw.mul_nr", c.starts_with("random"), &format!("tw Bls6 mul_nr {}", cs(&v)), &cs(&t.to()));
+    }
+    for (c, v) in elems::<Fp12>(ctx, nr) {
+        let a = Fp12::of(&v);
+        let mut t = a;
+        t.conjugate();
+        ctx.case("tw.conjugate", c.starts_with("random"), &format!("tw Bls12 conjugate {}", cs(&v)), &cs(&t.to()));
+    }
+}
+
+/// Child-process part of the Sum/Product-by-reference probe.
+pub fn probe_sum_ref_child() {
+    fn one<T: TW>() {
+        let xs: Vec<T> = (1u64..=5).map(|i| T::of(&vec![BigUint::from(i); T::DEG])).collect();
+        let s: T = xs.iter().sum();
+        let p: T = xs.iter().product();
+        let s2 = xs.iter().fold(T::ZERO, |a, x| a + x);
+        let p2 = xs.iter().fold(T::ONE, |a, x| a * x);
+        println!("tw:{} {} {}", T::NAME, if s == s2 { "ok" } else { "differs" }, if p == p2 { "ok" } else { "differs" });
+    }
+    one::<Fp2>();
+    one::<Fp6>();
+    one::<Fp12>();
+    one::<Fq2>();
+    one::<Fq6>();
+    one::<Fq12>();
+}
+
+pub fn run(ctx: &mut Ctx) {
+    run_tw::<Fp2>(ctx);
+    run_tw::<Fp6>(ctx);
+    run_tw::<Fp12>(ctx);
+    run_tw::<Fq2>(ctx);
+    run_tw::<Fq6>(ctx);
+    run_tw::<Fq12>(ctx);
+    run_deg2_extras(ctx);
+    run_sparse(ctx);
+}
